@@ -19,7 +19,7 @@ CHECKS = {
     ),
     "C02": dict(
         level="exploration",
-        technique="deviation-bounded enumeration (k<=1 quick, k<=5 thorough + full product for formats with <=7000 cases) per format on the real dump_one/load_one, digits-aware attribute comparison, deterministic minimisation",
+        technique="deviation-bounded enumeration (k<=3 quick, k<=5 thorough + full product for formats with <=7000 cases) per format on the real dump_one/load_one, digits-aware attribute comparison, deterministic minimisation",
         text="Per read/write format: every object with <=k deviations from a default over atom counts crossing each field width, element sets, coordinate ranges, titles, bonds of every type, "
         "optional attributes/keys, grid shapes and values, matrix sizes is written, reloaded and compared attribute by attribute.",
         note="stored-attribute tables and printed digits typed per format in props/fmtspecs.py / wfnspecs.py; multi-line titles outside the domain",
@@ -126,7 +126,7 @@ CHECKS = {
     ),
     "C15": dict(
         level="model_checking",
-        technique="explicit exploration of conversion chains of depth 3 (dump/load cycles) from every start object of the C02 space; bit-identity of reached states and byte-identity of files",
+        technique="explicit exploration of conversion chains of depth 3 (dump/load cycles) from every start object of the C02 case space (k<=2 quick, k<=3 thorough), every corpus file x accepting format, and generated wavefunctions in foreign conventions / shell orders; bit-identity of reached states and byte-identity of files",
         text="For every C02 case the chain x0 -> x1 -> x2 -> x3 (dump_one/load_one in the same format) is executed; x2 must be bit-identical to x1, x3 to x2 and file 3 byte-identical to file 2 (fixpoint at depth 1).",
         note="states are deep snapshots of every attrs field (arrays by dtype/shape/bytes); QCSchema provenance growth is filtered as documented",
         design="DESIGN.md §2 C15",
@@ -160,7 +160,7 @@ CHECKS = {
     ),
     "C19": dict(
         level="exploration",
-        technique="deviation-bounded enumeration (k<=3 quick, k<=7 thorough) over 11 input axes on the real write_input, field-wise parse against independently computed fields",
+        technique="deviation-bounded enumeration (k<=5 quick, k<=7 thorough) over 11 input axes on the real write_input, field-wise parse against independently computed fields",
         text="All cases with <=2 (quick) / <=4 (thorough) deviations from the default over program, molecule, charge, spin, run type, lot, basis, title, template, atom_line callback, kwargs.",
         note="hand-typed periodic table and CODATA angstrom; ties x.5 accept both neighbours; layout parsed by tokens",
         design="DESIGN.md §2 C19",
